@@ -204,6 +204,11 @@ STATEFUL = [
     [[b"PSUBSCRIBE", b"["], [b"PUNSUBSCRIBE", b"["], [b"PUNSUBSCRIBE", b"\\"], [b"UNSUBSCRIBE", b""], [b"PING"]],
     [[b"STATS", b"CR"], [b"CLUSTER.ROUTINGTABLE"], [b"CLUSTER.MEMBERS"], [b"DM.DESTROY", b"d"], [b"DM.DESTROY", b"d", b"LC"]],
     [[b"DM.DEL", b"d"] + [b"k%d" % i for i in range(1500)]],
+] + [
+    # keys around the largest key length the storage format can hold (one length byte): stored or refused, then read, scanned, counted, deleted
+    [[b"DM.PUT", b"d", b"K" * n, b"v"], [b"DM.GET", b"d", b"K" * n], [b"DM.GETENTRY", b"d", b"K" * n], [b"DM.INCR", b"d", b"K" * n, b"1"],
+     [b"DM.EXPIRE", b"d", b"K" * n, b"100"]] + [[b"DM.SCAN", b"%d" % i, b"d", b"0"] for i in range(P.PARTS)] + [[b"DM.DEL", b"d", b"K" * n], [b"PING"]]
+    for n in (255, 256, 257, 511, 512, 65536)
 ]
 
 
